@@ -1476,6 +1476,9 @@ func (se *specEnv) call(n *SCall) Value {
 		if ret.IsBV() {
 			T = map[int]types.Type{8: types.Typ[types.Uint8], 16: types.Typ[types.Uint16], 32: types.Typ[types.Uint32], 64: types.Typ[types.Uint64]}[ret.W]
 		}
+		if ret == sortStr {
+			T = types.Typ[types.String]
+		}
 		if ret == sortByteSeq {
 			// a sequence-valued spec function
 			ln := c.App("seq_len", smt.BV(64), t)
